@@ -532,16 +532,21 @@ def w_sequences(job):
     rnd = random.Random(seed)
     for n in sizes:
         kinds = sorted(SEQ_BODIES)
-        for variant in range(3):
+        for variant in range(5):
             pick = [rnd.choice(kinds)] * n if variant == 0 else [rnd.choice(kinds) for _ in range(n)]
             body = ''.join(SEQ_BODIES[k].replace('%d', str(i)) for i, k in enumerate(pick))
             if variant == 2:
                 body = 'def host(x):\n' + ''.join('    ' + l + '\n' for l in body.split('\n') if l) + '    print(x, y0)\n'
                 src = 'x = 1\n' + body + 'host(x)\n'
+            elif variant >= 3:
+                # the long sequence is the body of a loop (its regions are resolved a second time through the back edge)
+                head = 'for q in x:\n' if variant == 3 else 'while x:\n'
+                body = head + ''.join('    ' + l + '\n' for l in body.split('\n') if l) + '    print(x, y0)\n'
+                src = 'x = 1\n' + body + 'print(x)\n'
             else:
                 src = 'x = 1\n' + body + 'print(x, y0)\n'
             lines = core.plines(src)
-            last = len(lines) - (1 if variant == 2 else 0)
+            last = len(lines) - (1 if variant >= 2 else 0)
             pl = [((last, lines[last - 1].index('x') + 1), 'after-long-sequence'), ((last, len(lines[last - 1]) - 1), 'after-long-sequence'),
                   ((len(lines) // 2, len(lines[len(lines) // 2 - 1])), 'inside-long-sequence')]
             sh.count('statement-sequences')
